@@ -14,6 +14,17 @@ for {-p} x {-m} x {-f 0,1,2,n-1,n,n+1} x {-t 1,2,3,16} (+ -r ref)
  (e) every emitted file compiles on its own against the generated header (gcc -fsyntax-only);
  (f) with -r: a function is in an s* file only if the reference module contains a byte-identical body;
  (g) emit-tokens: the Lean model renders the same function text in plain / -p / -m / -p -m mode.
+ (h) data-segment embedding mode (-d arrays | gnu-ld | sectcreate1 | sectcreate2): Props/C09Data.lean (over Model/InitMem.lean and
+     Gen/InitMem.lean, REGENERATED from wasmCWriteInitMemories / wasmCWriteDataSegmentsFromSection / wasmCWriteDataSegments by
+     tools/extract/gen_initmem.py) proves that instantiation does the same in every mode (blob offset of a segment = total length of ALL
+     earlier segments, passive ones included); tie `initmem-text` (tools/checks/initmem.py): InitMemories text + `datasegments` blob +
+     d<k> arrays of the real w2c2 in all four modes vs the model; search: directed + generated data-segment modules compiled and run
+     in -d arrays and -d gnu-ld (blob linked with ld -r -b binary) against V8 and against each other.
+ (i) -r REF classification at the level of bodies: Props/C09Split.lean (`static_only_if_identical_reference_body`, the hash an explicit
+     parameter that separates the bodies at hand; SHA-1 collision resistance is in the trusted base); tie `sha1-spec`
+     (tools/harness/sha1_harness.py): the real SHA1Init/Update/Final of w2c2/sha1.c vs hashlib on every length 0..300, every multiple of
+     64 ± 1 up to 4096, single and split updates; search: module/reference pairs whose code entries are exactly 64·k (and 64·k ± 1) bytes
+     long and differ only in the last block / only at the start of the last block / only in the first block / not at all.
 Known finding (open): with -m an export literally named f<N> collides with the internal <mod>_f<N>.
 """
 import copy
@@ -29,6 +40,8 @@ import vlib
 import e2e
 import e2e_common as ec
 import emit_tokens as et
+import initmem
+import sha1_harness
 from wasmgen import wasm_ast as A, encode, v8
 import importlib
 encmod = importlib.import_module("wasmgen.encode")      # the module (the package attribute `encode` is the function)
@@ -276,6 +289,232 @@ def c09_job(job):
     return out
 
 
+
+# ------------------------------------------------------------------------------- (h) data segment modes
+def data_mode_part(chk, env, tier, pr, broken, gen):
+    """text tie in all four modes + e2e in the linkable ones (arrays, gnu-ld) vs V8 and vs each other"""
+    corpus = [s for s in ec.corpus_specs(PROP) if "w2c2_opts" not in s]
+    n_text = 150 if tier == "quick" else 4000
+    n_e2e = 14 if tier == "quick" else 300
+    data = initmem.data_specs("%s:c09" % chk.seed, n_text)
+    with_data = [s for s in gen if ec.load_module(s)[0].datas]
+    tt = initmem.text_tie(env, corpus + data + with_data, driver_ok=pr["driver_ok"])
+    chk.coverage["evaluations"] += tt["cases"]
+    for k in range(tt["modules"]):
+        chk.count_case(("initmem-text", k), True, None)
+    cand = []
+    if tt["disagreements"]:
+        d0 = dict(tt["disagreements"][0])
+        d0.pop("spec", None)
+        broken.append({"kind": "correspondence", "name": "initmem-text",
+                       "msg": "%d case(s): InitMemories text / datasegments blob of the real w2c2 differs from Model.InitMem; first %r" % (len(tt["disagreements"]), d0)})
+        seen = set()
+        for x in tt["disagreements"]:
+            if x.get("spec") is not None and x["module"] not in seen and len(cand) < 6:
+                seen.add(x["module"])
+                cand.append(x["spec"])
+    # e2e: passive-rich modules first
+    def passive_rank(s_):
+        m_ = ec.load_module(s_)[0]
+        ps = [k for k, d_ in enumerate(m_.datas) if d_.mode == "passive"]
+        return 0 if ps and ps[0] < len(m_.datas) - 1 else 1
+    e2e_specs = corpus + cand + sorted(data[:4 * n_e2e], key=passive_rank)[:n_e2e] + with_data[: (2 if tier == "quick" else 40)]
+    res = ec.run_jobs(initmem.mode_jobs(env, e2e_specs))
+    by = {}
+    reported = 0
+    runs = 0
+    for r in res:
+        if r.get("error"):
+            chk.notes.append({"data-mode tool error": "%s: %s" % (r["id"], r["error"])})
+            continue
+        runs += 1
+        base_id = r["id"].replace("+d=gnu-ld", "")
+        mode = "gnu-ld" if r["id"].endswith("+d=gnu-ld") else "arrays"
+        by.setdefault(base_id, {})[mode] = r
+        b = r["builds"][0]
+        diffs = b["diffs"] + b.get("init_diffs", [])
+        chk.count_case(("data-mode", r["id"]), True, None)
+        if b["real"]["instantiate"][0] in ("w2c2_error", "build_error"):
+            diffs = [{"kind": b["real"]["instantiate"][0], "real": b["real"]["instantiate"][1][:300]}]
+        if diffs and reported < 6:
+            reported += 1
+            d0 = diffs[0]
+            chk.violation("data-mode-%s-%s:%s" % (mode, d0["kind"], base_id),
+                          "module %s translated with -d %s: the compiled output disagrees with the specification (%s): real %r, expected %r"
+                          % (base_id, mode, d0["kind"], d0.get("real"), d0.get("v8", d0.get("spec"))),
+                          {"kind": "data-mode", "module": r["id"], "spec": r["spec"], "mode": mode, "disagreement": d0,
+                           "replay_cmd": "python3 tools/check.py C09 --replay <this file>"}, True)
+    for base_id, d in by.items():
+        if len(d) == 2:
+            a, g = d["arrays"]["builds"][0]["real"], d["gnu-ld"]["builds"][0]["real"]
+            for fld in ("instantiate", "results", "mem", "all_globals"):
+                if a.get(fld) != g.get(fld) and reported < 6 and tuple(a["instantiate"]) == ("ok",):
+                    reported += 1
+                    chk.violation("data-mode-behaviour-differs:%s" % base_id,
+                                  "module %s behaves differently under -d arrays and -d gnu-ld (%s)" % (base_id, fld),
+                                  {"kind": "data-mode", "module": d["gnu-ld"]["id"], "spec": d["gnu-ld"]["spec"], "mode": "gnu-ld", "field": fld,
+                                   "arrays": str(a.get(fld))[:300], "gnu-ld": str(g.get(fld))[:300]}, True)
+                    break
+    chk.coverage.update({"data_mode_text_cases": tt["cases"], "data_mode_text_modules": tt["modules"], "data_mode_text_disagreements": len(tt["disagreements"]),
+                         "data_mode_text_histogram": tt["hist"], "data_mode_text_modes": list(initmem.MODES),
+                         "data_mode_e2e_runs": runs, "data_mode_e2e_modules": len(by), "data_mode_e2e_modes": ["arrays", "gnu-ld"]})
+    chk.coverage["disagreements_checked"] = chk.coverage.get("disagreements_checked", 0) + tt["cases"] + runs
+
+
+def replay_data_mode(r):
+    with vlib.scratch("c09r-") as d:
+        env = ec.Env(d)
+        res = ec.e2e_job(initmem.mode_jobs(env, [r["spec"]], modes=("arrays",))[0])       # the mode travels in spec['w2c2_opts']
+    if res.get("error"):
+        raise RuntimeError(res["error"])
+    b = res["builds"][0]
+    diffs = b["diffs"] + b.get("init_diffs", [])
+    if b["real"]["instantiate"][0] in ("w2c2_error", "build_error"):
+        diffs = [{"kind": b["real"]["instantiate"][0], "real": b["real"]["instantiate"][1][:300]}]
+    for dd in diffs:
+        print("replay %s: %s: real %r expected %r" % (res["id"], dd["kind"], dd.get("real"), dd.get("v8", dd.get("spec"))))
+    print("replay %s (w2c2 %s): %d disagreement(s) with the specification" % (res["id"], " ".join(r["spec"].get("w2c2_opts", [])), len(diffs)))
+    return 1 if diffs else 0
+
+
+# ------------------------------------------------------------------------------- (i) SHA-1 and -r REF on bodies of 64·k bytes
+def sha1_part(chk, env, tier, broken):
+    exe = sha1_harness.build(env.repo, env.dir)
+    cs = sha1_harness.cases(chk.rng, maxlen=4096 if tier == "quick" else 16384, extra_random=200 if tier == "quick" else 3000)
+    bad, n = sha1_harness.run(exe, cs)
+    chk.coverage["evaluations"] += n
+    chk.coverage["sha1_spec_cases"] = n
+    chk.coverage["sha1_spec_lengths"] = "0..300, 64k-1/64k/64k+1 up to %d, random" % (4096 if tier == "quick" else 16384)
+    chk.coverage["sha1_spec_mismatches"] = len(bad)
+    if bad:
+        msg, cuts, got, want = bad[0]
+        broken.append({"kind": "correspondence", "name": "sha1-spec",
+                       "msg": "%d of %d messages: w2c2/sha1.c does not compute SHA-1; first: length %d, SHA1Update cuts %r: real %s, hashlib %s"
+                              % (len(bad), n, len(msg), cuts, got, want), "message_hex": msg.hex()[:400], "cuts": cuts})
+    return bad
+
+
+def sized_function(L, tag, variant):
+    """a function [] -> [i32] whose code entry (locals + code) is exactly L bytes: 00 | nop … | i32.const a, drop … | i32.const r | 0b.
+    variant: 'base' | 'tail' (differs in the last 3 bytes) | 'lastblock' (differs at the first bytes of the last 64-byte block) |
+    'first' (differs in the first bytes).  tag (0..63) makes bodies of different functions different (in the first block)."""
+    I = A.Instr
+    ret = 100 + tag
+    n = L - 1 - 1 - 3            # locals vec, end, `i32.const ret` (3 bytes: 41 + 2-byte LEB for 64 <= ret < 8192)
+    ops = ["nop"] * n
+    # marker in the first block: i32.const tag; drop  (41 tag 1a)
+    ops[0:3] = [("c", tag & 0x3F)]
+
+    def alter(pos):
+        ops[pos:pos + 3] = [("c", 0x3F)]
+    if variant == "first":
+        alter(3)
+    if variant == "lastblock":
+        alter(L - 64 - 1 + 1 - 2 if L >= 66 else 6)       # entry offset L-64 = start of the last block (entry offset = op position + 1)
+    body = []
+    for o in ops:
+        if o == "nop":
+            body.append(I("nop"))
+        else:
+            body += [I("i32.const", o[1]), I("drop")]
+    body.append(I("i32.const", ret + (1000 if variant == "tail" else 0)))
+    return A.Function(0, [], body)
+
+
+def ref_hash_pairs(tier):
+    """[(name, module, reference, expect)] expect[k] = True iff function k of the module has a byte-identical body in the reference"""
+    out = []
+    lens = [64, 127, 128, 129, 192, 256, 320, 1024] if tier == "quick" else [63, 64, 65, 127, 128, 129, 191, 192, 193, 256, 320, 384, 448, 512, 1024, 4096, 65536]
+    variants = ("base", "tail", "lastblock", "first")
+    m, r, expect = A.Module(), A.Module(), []
+    for mod in (m, r):
+        mod.types = [A.FuncType([], [A.I32])]
+    tag = 0
+    for L in lens:
+        for v in variants:
+            m.funcs.append(sized_function(L, tag, "base"))
+            r.funcs.append(sized_function(L, tag, v))
+            expect.append(v == "base")
+            tag += 1
+    for k in range(len(m.funcs)):
+        m.exports.append(A.Export(b"x%d" % k, "func", k))
+        r.exports.append(A.Export(b"x%d" % k, "func", k))
+    for k, f in enumerate(m.funcs):
+        assert len(body_bytes(m, f)) == lens[k // 4], (len(body_bytes(m, f)), lens[k // 4])
+        assert (body_bytes(m, f) == body_bytes(r, r.funcs[k])) == expect[k]
+        if not expect[k] and variants[k % 4] in ("tail", "lastblock") and lens[k // 4] >= 64:
+            a, b = body_bytes(m, f), body_bytes(r, r.funcs[k])
+            assert a[:len(a) - 64] == b[:len(b) - 64], "the difference must lie in the last 64 bytes"
+    out.append(("sized-bodies", m, r, expect))
+    return out
+
+
+def ref_hash_run(w2c2, d, name, m, r, expect, optsets):
+    """→ (problems, static/dynamic counts)"""
+    wasm, ref = encode(m), encode(r)
+    bodies = [body_bytes(m, f) for f in m.funcs]
+    refset = set(body_bytes(r, f) for f in r.funcs)
+    problems = []
+    counts = {"static": 0, "dynamic": 0, "identical_but_dynamic": 0}
+    for opts in optsets:
+        rc, err, files, cmd = run_w2c2(w2c2, d, "m", wasm, opts, ref)
+        if rc != 0:
+            problems.append({"kind": "w2c2-fails", "opts": opts, "detail": err})
+            continue
+        for fn, fns in functions_by_file(files, "m", "-m" in opts).items():
+            st = bool(re.fullmatch(r"s\d{10}\.c", fn))
+            dy = bool(re.fullmatch(r"d\d{10}\.c", fn))
+            for k in fns:
+                if st:
+                    counts["static"] += 1
+                    if bodies[k] not in refset:
+                        problems.append({"kind": "static-function-without-identical-reference-body", "opts": opts, "function": k, "file": fn,
+                                         "entry_length": len(bodies[k]),
+                                         "detail": "function %d (code entry of %d bytes) is in static file %s but no function of the reference module has "
+                                                   "the same locals+code bytes" % (k, len(bodies[k]), fn)})
+                elif dy:
+                    counts["dynamic"] += 1
+                    if bodies[k] in refset:
+                        counts["identical_but_dynamic"] += 1
+    return problems, counts
+
+
+def ref_hash_part(chk, env, tier, broken):
+    tot = {"static": 0, "dynamic": 0, "identical_but_dynamic": 0}
+    npairs = 0
+    for name, m, r, expect in ref_hash_pairs(tier):
+        d = os.path.join(env.work, "refhash")
+        optsets = [["-f", "1", "-t", "1"], ["-f", "3", "-t", "4"]] + ([["-p", "-m", "-f", "2", "-t", "2"]] if tier == "thorough" else [])
+        problems, counts = ref_hash_run(env.w2c2, d, name, m, r, expect, optsets)
+        shutil.rmtree(d, ignore_errors=True)
+        npairs += 1
+        ec.merge_hist(tot, counts)
+        chk.count_case(("ref-hash", name), True, {"pair": name, "functions": len(m.funcs), "expected_static": sum(expect), "counts": counts})
+        for p in problems[:3]:
+            chk.violation("%s:%s:f%s" % (p["kind"], name, p.get("function")),
+                          "w2c2 %s -r REF: %s" % (" ".join(p["opts"]), p["detail"]),
+                          {"kind": "ref-hash", "pair": name, "module_hex": encode(m).hex(), "ref_hex": encode(r).hex(), "opts": p["opts"], "problem": p,
+                           "replay_cmd": "python3 tools/check.py C09 --replay <this file>"}, True)
+        if counts["identical_but_dynamic"]:
+            broken.append({"kind": "correspondence", "name": "split-on-bodies",
+                           "msg": "%d function(s) with a byte-identical reference body were classified dynamic (the model's merge makes them static)" % counts["identical_but_dynamic"]})
+    chk.coverage.update({"ref_hash_pairs": npairs, "ref_hash_classified": tot,
+                         "ref_hash_entry_lengths": "64·k and 64·k ± 1 byte code entries; module/reference differ in the last 3 bytes | at the start of the last "
+                                                   "64-byte block | in the first block | not at all"})
+
+
+def replay_ref_hash(r):
+    from wasmgen import decode
+    m, ref = decode(bytes.fromhex(r["module_hex"])), decode(bytes.fromhex(r["ref_hex"]))
+    with vlib.scratch("c09r-") as d:
+        env = ec.Env(d)
+        problems, counts = ref_hash_run(env.w2c2, os.path.join(env.work, "refhash"), "m", m, ref, None, [r["opts"]])
+    for p in problems:
+        print("replay: w2c2 %s -r REF: %s" % (" ".join(p["opts"]), p["detail"]))
+    print("replay ref-hash: %d problem(s); %r" % (len(problems), counts))
+    return 1 if problems else 0
+
+
 def m_collision_case(chk, env):
     """ONE targeted case of the recorded open finding: -m + an export literally named f<N>."""
     I = A.Instr
@@ -301,10 +540,13 @@ def m_collision_case(chk, env):
 def run(tier):
     chk = vlib.Check(PROP, tier)
     chk.coverage["trusted_base"] = list(vlib.GLOBAL_TRUSTED) + ["V8 (node 20) as behavioural reference; tools/harness/e2e.py embedder"]
-    chk.assumptions = ["-g (#line mapping needs libdwarf, absent), -d gnu-ld/sectcreate (need the linker / macOS) and translator build "
-                       "configurations without pthreads/getopt are not part of this run's matrix"]
-    names = ["C09"] + (["C09Pool"] if c09pool is None else [])
-    pr = ec.prove_if_present(chk, names)
+    chk.coverage["trusted_base"].append("SHA-1 collision resistance on the function bodies at hand (hypothesis `hsep` of "
+                                        "static_only_if_identical_reference_body); hashlib.sha1 (OpenSSL) as the SHA-1 specification")
+    chk.assumptions = ["-g (#line mapping needs libdwarf, absent) and translator build configurations without pthreads/getopt are not part of "
+                       "this run's matrix; -d sectcreate1/sectcreate2 outputs need the macOS linker: their InitMemories text and blob are compared "
+                       "with the model, they are not executed (-d gnu-ld is linked with ld -r -b binary and run)"]
+    names = ["C09", "C09Data", "C09Split"] + (["C09Pool"] if c09pool is None else [])
+    pr = ec.prove_if_present(chk, names, ec.GENS + [("InitMem", "gen_initmem")])
     broken = list(pr["errors"])
     if c09pool is not None:
         if "theorems pending" in chk.notes:
@@ -318,6 +560,8 @@ def run(tier):
     with vlib.scratch("c09-") as d:
         env = ec.Env(d)
         m_collision_case(chk, env)
+        sha1_part(chk, env, tier, broken)
+        ref_hash_part(chk, env, tier, broken)
         corpus = ec.corpus_specs(PROP)
         gen = []
         for prof, share in (("calls", 0.6), ("init", 0.2), ("control", 0.2)):
@@ -351,6 +595,8 @@ def run(tier):
                               "w2c2 %s on module %s: %s: %r" % (p["opts"], res["id"], p["kind"], p["detail"]),
                               {"module": res["id"], "spec": res["spec"], "opts": p["opts"], "problem": p,
                                "replay_cmd": "python3 tools/check.py C09 --replay <this file>"}, True)
+        # (h) data segment modes
+        data_mode_part(chk, env, tier, pr, broken, gen)
         # (g) the model renders the same text under -p / -m
         nfun, bad = 0, []
         for multi, pretty in ((False, False), (False, True), (True, False), (True, True)):
@@ -391,6 +637,10 @@ def run(tier):
 
 def replay(path):
     r = json.load(open(path))
+    if r.get("kind") == "data-mode":
+        return replay_data_mode(r)
+    if r.get("kind") == "ref-hash":
+        return replay_ref_hash(r)
     if "SCHED_SEED" in r or "module_keys" in r:
         return c09pool.replay(path)
     with vlib.scratch("c09r-") as d:
